@@ -119,13 +119,20 @@ def line_lengths(src):
 
 def outcome_record(out):
     """typed outcome with every field present (what the judge reads)"""
-    return {"o": out["o"], "line": int(out.get("line", 0)), "col": int(out.get("col", 0)),
+    return {"o": out["o"], "line": int(out.get("line", 0)), "col": int(out.get("col", 0)), "steps": int(out.get("steps", 0)),
             "type": out.get("type", ""), "where": out.get("where", ""), "msg": out.get("msg", "")[:120]}
 
 
+def run_patient(api, fn, cap=300_000):
+    """api.run, and once more with a long watchdog if only the wall clock fired (machine under load)"""
+    out = api.run(fn, wall=10.0, cap=cap)
+    if out["o"] == "hang" and out.get("why") == "wall clock":
+        out = api.run(fn, wall=180.0, cap=cap)
+    return out
+
+
 def eval_src(api, src, time_limit=0.5, cap=300_000):
-    ctx = api.Context(time_limit=time_limit)
-    out = api.run(lambda: ctx.eval(src), wall=10.0, cap=cap)
+    out = run_patient(api, lambda: api.Context(time_limit=time_limit).eval(src), cap=cap)
     out.pop("pv", None)
     return outcome_record(out)
 
@@ -136,7 +143,7 @@ def lex_src(api, src):
 
     def go():
         return [(t.type, t.value, t.line, t.column) for t in Lexer(src).tokenize()]
-    out = api.run(go, wall=10.0)
+    out = run_patient(api, go)
     if out["o"] != "value":
         return outcome_record(out), []
     toks = []
@@ -154,10 +161,18 @@ def lex_src(api, src):
         else:
             k = "".join(CHAR_CLASS.get(ch, "?") for ch in str(val))
         toks.append({"k": k, "line": line, "col": col})
-    return {"o": "tokens", "line": 0, "col": 0, "type": "", "where": "", "msg": ""}, toks
+    return {"o": "tokens", "line": 0, "col": 0, "steps": 0, "type": "", "where": "", "msg": ""}, toks
 
 
 def driver(case, api):
+    """one retry if the watchdog fired outside a measured region (machine under load)"""
+    try:
+        return driver1(case, api)
+    except api.HarnessHang:
+        return driver1(case, api)
+
+
+def driver1(case, api):
     _limit_memory()
     kind = case["kind"]
     if kind == "cls":
@@ -183,11 +198,11 @@ def grid(case, api):
             for vi, vec in enumerate(case["vecs"]):
                 if fn in alloc and any(a in huge for a in vec):
                     continue
-                ctx = api.Context(time_limit=1.0)
                 names = []
+                sets = []
                 for ai, a in enumerate(vec):
                     if case.get("intrep") == "float" and a in ARG_PY:
-                        ctx.set("__a%d" % ai, ARG_PY[a])
+                        sets.append(("__a%d" % ai, ARG_PY[a]))
                         names.append("__a%d" % ai)
                     else:
                         names.append(ARG_SRC[a])
@@ -196,7 +211,12 @@ def grid(case, api):
                     src = ("new " if form == "new" else "") + "%s(%s)" % (fn, args)
                 else:
                     src = "var __r = %s; __r.%s(%s)" % (RECEIVERS[recv], fn, args)
-                out = api.run(lambda: ctx.eval(src), wall=10.0, cap=300_000)
+                def call(src=src, sets=sets):
+                    ctx = api.Context(time_limit=1.0)
+                    for nm, val in sets:
+                        ctx.set(nm, val)
+                    return ctx.eval(src)
+                out = run_patient(api, call)
                 out.pop("pv", None)
                 res.append({"id": case["id"], "recv": recv, "fname": fn, "form": form, "args": vec, "src": src,
                             "out": outcome_record(out)})
